@@ -230,7 +230,7 @@ def stage_oracle(ctx: Ctx, progs):
             continue
         d = cmp_ast(squash_multiline_strings(work.a), squash_multiline_strings(expected), positions=False, ctx=False)
         if d:
-            ctx.violation(f'sub-struct|{name}|{"nested" if nested else "flat"}', 'the tree after sub() differs from the pure-AST substitution', {**rec, 'after': work.src, 'diffs': d,
+            ctx.violation('sub-struct|several-statement-template-nested' if nested and isinstance(ref.template, list) else f'sub-struct|{name}|{"nested" if nested else "flat"}', 'the tree after sub() differs from the pure-AST substitution', {**rec, 'after': work.src, 'diffs': d,
                           'expected_unparsed': ast.unparse(ast.fix_missing_locations(expected))[:1500]})
             continue
         if n_unique != ref.n or n_total != ref.n:
@@ -288,6 +288,24 @@ def stage_slots(ctx: Ctx):
             ctx.violation('sub-struct|several-statement-template-nested' if '\n' in template else 'sub-struct|whole-match-slice-nested',
                           'with nested=True not every match was substituted when the whole match is spliced / wrapped by the template or the template is several statements (or the counts are not the substitutions performed)',
                           {**rec, 'after': root.src, 'counts': list(got), 'diffs': d})
+    # a quantifier capture over Call.args / ClassDef.bases when keywords stand between the captured elements: the slot gets the captured elements, nothing else
+    for src, mk, template, want in [('r = f(a, b, k=1, *c, j=2)', lambda: MCall(args=[..., MQSTAR(t=...)]), 'g(__FST_t)', 'r = g(b, *c)'),
+                                    ('r = f(a, b, *c, j=2)', lambda: MCall(args=[..., MQSTAR(t=...)]), 'g(__FST_t)', 'r = g(b, *c)'),
+                                    ('r = f(a, k=1, *c, j=2)', lambda: MCall(keywords=[MQSTAR(t=...)]), 'g(__FST_t)', 'r = g(k=1, j=2)'),
+                                    ('r = f(a, *c, k=1, j=2)', lambda: MCall(keywords=[MQSTAR(t=...)]), 'g(__FST_t)', 'r = g(k=1, j=2)')]:
+        root = fst.FST(src, 'exec')
+        rec = {'src': src, 'template': template, 'expected': want}
+        try:
+            root.sub(mk(), template)
+        except Exception as e:
+            ctx.dist['sub:interleaved:refused'] = ctx.dist.get('sub:interleaved:refused', 0) + 1        # refusing what cannot be expressed as one slice is fine
+            if reparse_diffs(root) or root.src != src + '\n' and root.src != src:
+                ctx.violation('sub-raise-dirty|interleaved', 'sub() raised and left a changed tree', {**rec, 'error': repr(e)[:200], 'after': root.src})
+            continue
+        ctx.tick(('slots-interleaved', src, template), 'sub:slots-interleaved')
+        d = reparse_diffs(root) or cmp_ast(root.a, ast.parse(want), positions=False, ctx=False)
+        if d:
+            ctx.violation('sub-struct|args-capture-with-interleaved-keywords', 'a slot was filled with more than the captured elements', {**rec, 'after': root.src, 'diffs': d})
     # slots inside string constants of the template are filled with the (escaped) source of the capture
     from fst.match import MBinOp, MName, MAttribute
     bop = lambda: MBinOp(left=M(l=...), right=M(r=...))
